@@ -63,20 +63,19 @@ Theorem C08_prefix_tck : forall items sl b h,
 Proof. exact tck_prefix_all. Qed.
 Print Assumptions C08_prefix_tck.
 
-(* without that hypothesis the statement is false of the faithful model (finding S-C08b): a
-   streamline that begins with an all-inf point, cut right after that point *)
-Theorem C08_prefix_tck_inf_refuted :
-  exists sl F n got, Forall wf_stream sl /\ tck_save 0 [] sl = Ok F /\ 0 <= n < zlen F
-    /\ decode_tck false 4194304 F = Some sl
-    /\ decode_tck false 4194304 (take n F) = Some got /\ got <> sl.
+(* streamlines beginning with an all-inf point (finding S-C08b: cut right after that point, the
+   file loaded silently with fewer streamlines) can no longer be written: TckFile.save refuses any
+   all-NaN / all-inf point (C16_tck_save_refuses_delimiter_points), so every file the writer
+   produces satisfies the hypothesis of C08_prefix_tck *)
+Theorem C08_tck_writer_excludes_inf_first : forall count0 items sl f,
+  tck_save count0 items sl = Ok f -> sl <> [] ->
+  existsb (existsb (fun t => nan3 t || inf3 t)) sl = false.
 Proof.
-  exists [[(1065353216, 0, 0)]; [(2139095040, 4286578688, 2139095040); (0, 0, 0)]; [(1073741824, 0, 0)]].
-  eexists. exists 103. eexists.
-  split; [repeat constructor; try discriminate; cbn; lia|].
-  split; [vm_compute; reflexivity|]. split; [vm_compute; split; [discriminate|reflexivity]|].
-  split; [vm_compute; reflexivity|]. split; [vm_compute; reflexivity|discriminate].
+  intros count0 items sl f H Hne. unfold tck_save in H.
+  destruct (tck_header count0 items); [|discriminate]. destruct sl as [|s sl']; [congruence|].
+  destruct (existsb _ (s :: sl')); [discriminate|reflexivity].
 Qed.
-Print Assumptions C08_prefix_tck_inf_refuted.
+Print Assumptions C08_tck_writer_excludes_inf_first.
 
 (* ---- TRK: the file TrkFile.save writes for a non-empty tractogram (C16_trk_roundtrip_struct),
    header layout with hdr_size as its last field (C08_trk_layout): EVERY strict prefix - cut in
